@@ -922,7 +922,7 @@ def fam_C12(rng, tier):
         maxl = min(N, 24)
         ln = r.randint(0, maxl)
         xs = [val(r, kind) for _ in range(ln)]
-        lines = [cfg_line(cfg)]
+        lines = [cfg_line(cfg), 'sszmeta list', 'sszmeta vec']
         good = enc_seq(kind, xs)
         cands = [good]
         fs = KIND_SIZE[kind]
@@ -974,7 +974,7 @@ def fam_C12(rng, tier):
                 m = r.choice(MAPS)
                 ln = r.randint(0, min(N, 9))
                 xs = [val(r, kind, pzero=0.2) for _ in range(ln)]
-                lines = [cfg_line((kind, N, m)), 'new 1 list ' + ' '.join(xs), 'ssz 1', 'unsszprev 2 list', 'eq 1 2',
+                lines = [cfg_line((kind, N, m)), 'sszmeta list', 'sszmeta vec', 'new 1 list ' + ' '.join(xs), 'ssz 1', 'unsszprev 2 list', 'eq 1 2',
                          'tovec 2', 'ssz 2']
                 if ln:
                     lines.append('getmut 1 %d %s' % (r.randrange(ln), val(r, kind, pzero=0.0)))
